@@ -14,8 +14,11 @@
 (*   call : c, conn, cls, m1, m2, api, late, site, fails                   *)
 (*          caller c enters wait_for_*_message / create_*_response_future  *)
 (*          / execute (registration happens in that same loop slot)        *)
-(*   msg  : conn, cls, f1, f2   MessageReceivedEvent: the client handles a  *)
-(*          message (the completion loop follows in the same slot)          *)
+(*   msg  : conn, cls, f1, f2   MessageReceivedEvent reaches the harness'    *)
+(*          listener (the last one): message #(number of msg events) came in *)
+(*   hdl  : j                   that listener returns for message #j - at    *)
+(*          once, or after it was suspended until the harness released it;  *)
+(*          the completion loop follows in the same slot                    *)
 (*   err  : exc                 'error during callback' logged, or the loop *)
 (*          exception handler was reached                                   *)
 (*   stim : c, what             the harness cancels c's task ("cancel") or  *)
@@ -45,8 +48,8 @@ MechFrozen ==
   /\ ready = <<>> /\ dueNow = <<>>
   /\ buf = <<>> /\ rsched = <<>> /\ lst = <<>>
   /\ wst = <<>> /\ wres = <<>> /\ wspec = <<>> /\ cpc = <<>> /\ creq = <<>> /\ mustc = <<>>
-  /\ expiring = <<>> /\ armed = <<>> /\ sfail = <<>> /\ dead = {}
-  /\ nfed = 0 /\ ncancel = 0 /\ ndue = 0 /\ nsf = 0
+  /\ expiring = <<>> /\ armed = <<>> /\ sfail = <<>> /\ dead = {} /\ susp = <<>>
+  /\ nfed = 0 /\ ncancel = 0 /\ ndue = 0 /\ nsf = 0 /\ nslow = 0
 
 TInit ==
   /\ tid \in 1..Len(Traces)
@@ -94,15 +97,24 @@ TCall ==
   /\ UNCHANGED errs
   /\ Step
 
+\* a message comes in: its handlers and listeners start
 TMsg ==
   /\ IsEv("msg")
-  /\ ObsHandled(<<[conn |-> Rec.conn, cls |-> Rec.cls, f1 |-> Rec.f1, f2 |-> Rec.f2]>>, 0)
+  /\ ObsHandled(<<[conn |-> Rec.conn, cls |-> Rec.cls, f1 |-> Rec.f1, f2 |-> Rec.f2]>>, {}, 0)
+  /\ UNCHANGED <<site, errs>>
+  /\ Step
+
+\* the last listener of message #j returned: the completion of its waiters follows in the same slot
+THandled ==
+  /\ IsEv("hdl")
+  /\ Rec.j \in 1..Len(hist) /\ Rec.j \notin fin
+  /\ ObsHandled(<<>>, {Rec.j}, 0)
   /\ UNCHANGED <<site, errs>>
   /\ Step
 
 TErr ==
   /\ IsEv("err")
-  /\ ObsHandled(<<>>, 1)
+  /\ ObsHandled(<<>>, {}, 1)
   /\ errs' = errs \cup {Rec.exc}
   /\ UNCHANGED site
   /\ Step
@@ -136,7 +148,7 @@ Done ==
 
 Finished == l = Len(T) + 2 /\ UNCHANGED tvars
 
-TNext == TCall \/ TMsg \/ TErr \/ TStim \/ TOut \/ TQuiet \/ Done \/ Finished
+TNext == TCall \/ TMsg \/ THandled \/ TErr \/ TStim \/ TOut \/ TQuiet \/ Done \/ Finished
 
 TSpec == TInit /\ [][TNext]_tvars
 =============================================================================
